@@ -90,12 +90,12 @@ Record kidict := mkKID { kd_uid : option str; kd_cp : option cparams }.     (* k
 Record kwdict := mkKWD { wd_method : option Z; wd_eki : option kidict; wd_mski : option kidict;   (* None = {} *)
                          wd_mac : option bytes; wd_iv : option bytes; wd_enc : option Z }.
 
-(* ObjectFactory._build_key_wrapping_data: core -> dict.  A key information structure without cryptographic
-   parameters makes _build_cryptographic_parameters dereference None (AttributeError): Err. *)
+(* ObjectFactory._build_key_wrapping_data: core -> dict.  A key information structure without cryptographic parameters gives
+   'cryptographic_parameters': None (since the fix: commit 546e738; it used to raise AttributeError). *)
 Definition ki_to_dict (k : option keyinfo) : res (option kidict) :=
   match k with
   | None => Ok None
-  | Some ki => match ki_cp ki with None => Err | Some cp => Ok (Some (mkKID (Some (ki_uid ki)) (Some cp))) end
+  | Some ki => Ok (Some (mkKID (Some (ki_uid ki)) (ki_cp ki)))
   end.
 Definition kwd_to_dict (w : option kwd) : res (option kwdict) :=
   match w with
